@@ -423,7 +423,17 @@ pub fn conflict(c: &Conflict) -> OnConflict {
         oc.expr(e.build());
     }
     for w in &c.target_where {
-        oc.target_and_where(w.build());
+        match route(3) {
+            0 => {
+                oc.target_and_where(w.build());
+            }
+            1 => {
+                oc.target_and_where_option(Some(w.build()));
+            }
+            _ => {
+                oc.target_cond_where(w.build());
+            }
+        }
     }
     match &c.action {
         Some(ConflictAction::Nothing) => {
@@ -451,7 +461,21 @@ pub fn conflict(c: &Conflict) -> OnConflict {
         None => {}
     }
     for w in &c.action_where {
-        oc.action_and_where(w.build());
+        match route(3) {
+            0 => {
+                oc.action_and_where(w.build());
+            }
+            1 => {
+                oc.action_and_where_option(Some(w.build()));
+            }
+            _ => {
+                oc.action_cond_where(w.build());
+            }
+        }
+    }
+    if route(4) == 0 {
+        oc.action_and_where_option(None);
+        oc.target_and_where_option(None);
     }
     oc
 }
